@@ -3888,10 +3888,11 @@ LEAN_OBLIGATIONS.update({
         obligations=["Tumfl.Props.C12_wrong_args_stmt", "Tumfl.Props.C12_wrong_args_expr", "Tumfl.Props.C12_missing_stmt", "Tumfl.Props.C12_missing_expr",
                      "Tumfl.Props.C12_untouched", "Tumfl.Props.C12_errors", "Tumfl.Props.C04_lookup_none", "Tumfl.Props.C12_stmt_cycles_terminate",
                      "Tumfl.Props.C12_cycle_example", "Tumfl.Props.C04_terminates",
-                     "Tumfl.Props.C12_nothing_left", "Tumfl.Props.C12_ok_no_bad_require", "Tumfl.Props.C04_faithful"],
+                     "Tumfl.Props.C12_nothing_left", "Tumfl.Props.C12_ok_no_bad_require", "Tumfl.Props.C04_faithful",
+                     "Tumfl.Props.C12_error_designates", "Tumfl.Props.C12_tree_is_files"],
         extractors=["Ladder", "LexTables"],
         tie_names=["T2:resolve (faulty trees: exception kind and token of the offending call)"],
-        partial_hypotheses=["statement-level cycles terminate: proved (C12_stmt_cycles_terminate); nothing is silently left behind: proved (C12_nothing_left - no call of the bare name require remains in a successfully resolved tree, whatever its arguments); `the first such call in visit order raises`: T2 and oracle streams; is_file on a directory: the abstract "
+        partial_hypotheses=["statement-level cycles terminate: proved (C12_stmt_cycles_terminate); nothing is silently left behind: proved (C12_nothing_left - no call of the bare name require remains in a successfully resolved tree, whatever its arguments); the error is raised FOR THAT CALL: proved (C12_error_designates - the token of every InvalidDependencyError is the token of a really uninlinable bare-name require call in a file of the dependency tree); that it is the FIRST such call in visit order: T2 and oracle streams; is_file on a directory: the abstract "
                             "file system has files and directories as disjoint sets, tied by T2 on real trees with directory traps"],
     ),
     "C20": dict(
